@@ -5,6 +5,7 @@ import (
 	"fmt"
 	"io"
 	"slices"
+	"strings"
 
 	"reduction.dev/reduction/dkv/kv"
 	"reduction.dev/reduction/dkv/sst"
@@ -178,6 +179,14 @@ func LoadCheckpointList(fs storage.FileSystem, dataOwnership kv.DataOwnership, c
 		for levelIndex, level := range doc.Levels {
 			compositeCheckpointDoc.Levels[levelIndex] = append(compositeCheckpointDoc.Levels[levelIndex], level...)
 		}
+	}
+
+	// Levels below L0 are searched with a binary search over their tables, so
+	// the tables merged from several checkpoints must be put back in key order.
+	for levelIndex := 1; levelIndex < len(compositeCheckpointDoc.Levels); levelIndex++ {
+		slices.SortFunc(compositeCheckpointDoc.Levels[levelIndex], func(a, b sst.TableDocument) int {
+			return strings.Compare(a.StartKey, b.StartKey)
+		})
 	}
 
 	compositeCheckpoint := newCheckpointFromDocument(fs, dataOwnership, compositeCheckpointDoc)
